@@ -265,6 +265,8 @@ SEEDS8 = {
 SEEDS2.update(SEEDS8)
 # round 9: twelve fresh agents for the properties that had ten stored changes; same brief as round 8
 SEEDS9 = {
+    "C15-11": ("C15", ["C15"], "distributor: verification skipped when sha256(raw) was verified in the previous round (digest set swapped at round end, key ignores the log)", "one Distributor over two rounds: log A valid in round N, the witness answers log B with A's bytes in round N+1"),
+    "C15-12": ("C15", ["C15"], "distributor PUT body re-serialised from the opened note (text + verified signatures only)", "a valid witnessed checkpoint carrying an additional signature line by an unknown key (e.g. another witness's cosignature)"),
 }
 SEEDS2.update(SEEDS9)
 ROUND9 = {'C01', 'C02', 'C03', 'C04', 'C05', 'C07', 'C08', 'C09', 'C10', 'C13', 'C15', 'C18'}
